@@ -2,6 +2,7 @@ package expressions
 
 import (
 	"fmt"
+	"regexp"
 	"strconv"
 	"strings"
 )
@@ -43,8 +44,8 @@ func asDateDif() callMigrator {
 // migrates a function call using a template
 func asTemplate(template string) callMigrator {
 	return func(funcName string, params []string) (string, error) {
-		numParamPlaceholders := strings.Count(template, "%s") + strings.Count(template, "%v")
-		if numParamPlaceholders > len(params) {
+		numParamPlaceholders := numTemplateParams(template)
+		if numParamPlaceholders != len(params) {
 			return "", fmt.Errorf("expecting %d params whilst migrating call to %s but got %d", numParamPlaceholders, funcName, len(params))
 		}
 
@@ -75,9 +76,27 @@ func asOperatorTemplate(template string, precedences ...int) callMigrator {
 	}
 }
 
+var indexedPlaceholderRegex = regexp.MustCompile(`%\[(\d+)\]`)
+
+// gets the number of params which a template takes, i.e. the number of its %s and %v placeholders or the highest
+// index of its %[n]s placeholders
+func numTemplateParams(template string) int {
+	num := strings.Count(template, "%s") + strings.Count(template, "%v")
+	for _, match := range indexedPlaceholderRegex.FindAllStringSubmatch(template, -1) {
+		if index, _ := strconv.Atoi(match[1]); index > num {
+			num = index
+		}
+	}
+	return num
+}
+
 // migrates a function call by joining its parameters with the given (left associative) operator
 func asJoin(delimiter string, precedence int) callMigrator {
 	return func(funcName string, params []string) (string, error) {
+		if len(params) == 0 {
+			return "", fmt.Errorf("expecting at least one param whilst migrating call to %s", funcName)
+		}
+
 		operands := make([]string, len(params))
 		for i := range params {
 			if i == 0 {
